@@ -37,29 +37,29 @@ func init() {
 		"race freedom for every schedule by a frame-rule argument: locations reachable by two operations are prestate of both or global; no public operation writes prestate (R1) or package-level state, the library starts no goroutine, uses no sync primitive and holds no private random generator (R2); every other write targets objects allocated inside the operation.",
 		"nothing is excluded, but the argument is only as good as its assumptions; no happens-before detector is used (different technique).",
 		"math/rand top-level functions and *regexp.Regexp are goroutine safe (documented)")
-	prop("C12", []string{"R24", "R29", "R25", "R31", "R45", "R49", "R50"},
+	prop("C12", []string{"R24", "R61", "R29", "R25", "R31", "R45", "R49", "R50", "R56", "R62"},
 		"necessary conditions only: short reads are handled wherever the stream is read (R24); a failing reader is never taken for end of input (R29); all nine options are consulted (R25); reader errors propagate (R31); type inference tries int, float, bool, string in that order (R45); two necessary conditions of fragmentation independence: no scanner decision is taken on the buffer fill level without refilling (R50), and per-column byte buffers never share a backing array (R49).",
 		"THE CORE OF THE PROPERTY: that the scanner's output is independent of where read boundaries fall, quote compaction, CRLF handling, buffer growth (a hand-written state machine over all documents and read schedules).")
-	prop("C13", []string{"R26", "R6", "R25", "R30"},
+	prop("C13", []string{"R26", "R6", "R25", "R30", "R34", "R1w"},
 		"necessary conditions only: writer and reader use inverse conversions with lossless arguments for every type, NaN/null <-> empty cell (R26); rows and cells are emitted through the index (R6); Header/Columns are consulted (R25); write failures surface (R30).",
 		"agreement of encoding/csv's quoting with the custom scanner's unquoting for arbitrary bytes; round-trip equality is value level.")
-	prop("C14", []string{"R27", "R28", "R6"},
+	prop("C14", []string{"R27", "R28", "R58", "R6"},
 		"every string that reaches the output - cell values and column names - goes through the escaper (R27); the escaper leaves unescaped only bytes JSON allows unescaped and emits well-formed escapes for all 256 byte values (R28); numbers are written by AppendInt/AppendBool/AppendFloat64f, NaN and null as the constant null (R27); rows in index order (R6).",
 		"the punctuation skeleton as a grammar; ReadJSON inversion.")
-	prop("C15", []string{"R29", "R30", "R31", "R24", "R41"},
+	prop("C15", []string{"R29", "R30", "R31", "R24", "R61", "R41", "R56"},
 		"the whole statement as error-flow obligations: iterator loops consult Err() before any success return (R29), buffered writers' deferred errors are returned (R30), every error produced in scope reaches a sink (R31), read counts are honoured (R24), results are not used before their error test (R41) - on every path, hence for every fault position.",
 		"`never panics` beyond R41/C10's rules.",
 		"io.Writer / database/sql honour their contracts (a short write returns an error)")
-	prop("C16", []string{"R32", "R27"},
+	prop("C16", []string{"R32", "R27", "R58"},
 		"necessary conditions only: the 128-bit multiplier tables and layout constants are the ones the algorithm's correctness argument requires, all 618 entries recomputed in math/big (R32); every non-NaN float reaches JSON through AppendFloat64f (R27).",
 		"THE CORE OF THE PROPERTY: digit generation, the three positional layouts, buffer reuse; equality with strconv.FormatFloat over 2^64 inputs is value level.")
 	prop("C17", []string{"R33", "R34", "R19", "R4", "R10", "R5", "R46"},
 		"the 8-bit encoding cannot overflow into null or wrap (R33, R34, R19); undeclared values are rejected on every construction path (R34: minting is dominated by !strict and the cardinality guard); ordering comparisons and Sort use rank = declared position (R4, R10); filtering a strict column against an undeclared constant is an error (R46); null stays distinct (R5 polarity, R10).",
 		"in/like bitset contents beyond R19's layout and R35.")
-	prop("C18", []string{"R35", "R33", "R3", "R42"},
+	prop("C18", []string{"R35", "R59", "R57", "R33", "R3", "R42"},
 		"matcher selection and anchoring for all 16 pattern classes, both column types agreeing (R35); the custom upper-casing never stores a non-ASCII rune as a single byte (R33); nulls never reach the matcher (R35 dominance; enum matching ranges over values).",
 		"agreement of the rest of the ToUpper copy with strings.ToUpper (buffer growth, length-changing code points); regular-expression assembly.")
-	prop("C19", []string{"R6", "R36", "R25", "R29", "R31", "R41", "R48"},
+	prop("C19", []string{"R6", "R36", "R25", "R29", "R31", "R41", "R48", "R2c", "R1w"},
 		"necessary conditions only: rows and arguments are taken through the index in frame order (R6); all five column types have an argument builder (R36); all dialect/config fields are consulted (R25); driver errors surface and a failing result set is not taken for a complete one (R29, R31, R41).",
 		"statement text per dialect; typed scanning and NULL back-fill; write/read agreement through a real store.")
 }
